@@ -442,7 +442,7 @@ def main(prop: str, tier: str, seed: int, only: str | None = None, record: str |
 
     if record:
         os.environ["VERIF_RECORD"] = record
-    nmax = max((n for t in tasks if "rules" in t for _r, nks in t["rules"] for n, _ in nks), default=0)
+    nmax = max((nk[0] for t in tasks if "rules" in t for _r, nks in t["rules"] for nk in nks if isinstance(nk[0], int)), default=0)
     return core.finish(
         prop,
         tier,
